@@ -366,6 +366,9 @@ pub struct Engine<'a> {
     pub run: &'a Run,
     /// every engine-reported violation is also counted here per property (for evidence)
     pub check_conservation: bool,
+    /// C16's "liquidity tokens in coins <= pool.liqs" oracle; switched off only in the scenario that starts from tokens the
+    /// pools never issued (faucet-minted), which is outside the histories the property quantifies over
+    pub check_backing: bool,
 }
 
 pub enum StepOut {
@@ -414,7 +417,7 @@ fn err_name(e: &StateError) -> &'static str {
 
 impl<'a> Engine<'a> {
     pub fn new(run: &'a Run) -> Self {
-        Engine { run, check_conservation: true }
+        Engine { run, check_conservation: true, check_backing: true }
     }
 
     pub fn step(&self, n: &Node, a: &Action) -> StepOut {
@@ -906,6 +909,9 @@ impl<'a> Engine<'a> {
                     parent.replay_json(a),
                 ),
             }
+        }
+        if !self.check_backing {
+            return;
         }
         let mut held: BTreeMap<Denom, BigUint> = BTreeMap::new();
         for c in after.coins.values() {
